@@ -254,6 +254,21 @@ tainted<T*, T_Sbx> copy_memory_or_grant_access(rlbox_sandbox<T_Sbx>& sandbox,
   if constexpr (detail::has_member_using_can_grant_deny_access_v<T_Sbx>) {
     detail::check_range_doesnt_cross_app_sbx_boundary<T_Sbx>(src, source_size);
 
+    // The check above only looks at the two ends of the range. Unlike memcpy,
+    // nothing limits the size of this buffer to the size of the sandbox, so a
+    // buffer with both ends in application memory could still contain the
+    // sandbox's memory
+    {
+      auto sbx_start =
+        reinterpret_cast<uintptr_t>(sandbox.get_memory_location());
+      auto src_start = reinterpret_cast<uintptr_t>(src);
+      detail::dynamic_check(sbx_start == 0 || sbx_start < src_start ||
+                              sbx_start - src_start >= source_size ||
+                              sandbox.is_pointer_in_sandbox_memory(src),
+                            "Granting access to a region that contains the "
+                            "sandbox memory");
+    }
+
     bool success;
     auto ret = sandbox.INTERNAL_grant_access(src, num, success);
     if (success) {
